@@ -128,6 +128,12 @@ Definition E_UNRECOGNIZED : N := 12.
 Definition E_ETPG : N := 13.
 Definition E_INVALID_FORMULA : N := 14.
 Definition E_BERR : N := 15.
+Definition E_LEN : N := 16.          (* XlsError::Len / XlsbError::Unrecognized from check_len *)
+Definition E_DEPTH : N := 17.        (* PtgMemFunc nested deeper than MAX_FORMULA_DEPTH *)
+
+(* slice.get(n..).ok_or(Len)?  /  check_len(.., n)?; &slice[n..] *)
+Definition drop_err (n : nat) (l : list N) : outcome (list N) :=
+  if (length l <? n)%nat then Err E_LEN else drop n l.
 
 (* ------------------------------------------------------------------ pieces shared by both decoders *)
 Definition pstate : Type := (list nat * list N)%type.     (* operand stack (top first), formula *)
@@ -191,7 +197,8 @@ Fixpoint windows_join (fargs : list N) (offs : list nat) (acc : list N) : outcom
   end.
 
 (* the tail of the PtgFunc / PtgFuncVar arm, from [if stack.len() < argc] on.
-   [strict]: xlsb indexes FTAB[iftab] (panic) where xls uses FTAB.get(iftab).ok_or(IfTab)? *)
+   Since the C06 hardening both formats use FTAB.get(iftab).ok_or(IfTab)? in both branches
+   ([strict] is kept for the proofs' sake and no longer makes a difference). *)
 Definition func_apply (strict : bool) (iftab : N) (argc : nat) (s : pstate) : outcome pstate :=
   let (st, buf) := s in
   if (length st <? argc)%nat then Err E_STACKLEN else
@@ -200,7 +207,7 @@ Definition func_apply (strict : bool) (iftab : N) (argc : nat) (s : pstate) : ou
       (* stack.push(formula.len()); formula.push_str(FTAB[iftab]); formula.push_str("()") *)
       match nthN Tables.FTAB iftab with
       | Some nm => Ok (length buf :: st, buf ++ nm ++ lit "()")
-      | None => Panic
+      | None => Err E_IFTAB
       end
   | S _ =>
       let args := rev (firstn argc st) in        (* stack.split_off(stack.len() - argc) *)
@@ -217,7 +224,7 @@ Definition func_apply (strict : bool) (iftab : N) (argc : nat) (s : pstate) : ou
             let rel' := rel ++ [length fargs] in (* args.push(fargs.len()) *)
             do nm <- match nthN Tables.FTAB iftab with
                      | Some nm => Ok nm
-                     | None => if strict then Panic else Err E_IFTAB
+                     | None => if strict then Err E_IFTAB else Err E_IFTAB
                      end;
             do joined <- windows_join fargs rel' (pre ++ nm ++ [ch_lpar]);
             Ok (st', removelast joined ++ [ch_rpar])       (* formula.pop(); formula.push(')') *)
@@ -305,7 +312,7 @@ Definition xls_ptgstr (rgce : list N) (s : pstate) : outcome (list N * pstate) :
     if high
     then decode_utf16le (firstn (2 * Nat.min (length stream / 2) n) stream)
     else decode_utf16le (widen (firstn (Nat.min (length stream) n) stream)) in
-  do rest <- drop (2 + nbytes) rgce;                       (* &rgce[1 + used..], used = 1 + nbytes *)
+  do rest <- drop_err (2 + nbytes) rgce;                   (* rgce.get(1 + used..).ok_or(Len)?, used = 1 + nbytes *)
   Ok (rest, (st', snd s ++ [ch_quote] ++ replace_quote txt ++ [ch_quote])).
 
 Fixpoint insert_n (k : nat) (e : nat) (ch : N) (b : list N) : outcome (list N) :=
@@ -314,12 +321,13 @@ Fixpoint insert_n (k : nat) (e : nat) (ch : N) (b : list N) : outcome (list N) :
 Definition xls_attr (rgce : list N) (s : pstate) : outcome (list N * pstate) :=
   do etpg <- byte_at rgce 0;
   do rgce1 <- drop 1 rgce;
+  if (length rgce1 <? 2)%nat then Err E_LEN else            (* "PtgAttr operands" *)
   match etpg with
   | 0x01 | 0x02 | 0x08 | 0x20 | 0x21 => do r <- drop 2 rgce1; Ok (r, s)
   | 0x04 =>
-      (* let n = read_u16(&rgce[..2]) as usize + 1; rgce = &rgce[2 + 2 * n..] *)
+      (* let n = read_u16(&rgce[..2]) as usize + 1; rgce = rgce.get(2 + 2 * n..).ok_or(Len)? *)
       do n <- u16_at rgce1 0;
-      do r <- drop (2 + 2 * (N.to_nat n + 1)) rgce1; Ok (r, s)
+      do r <- drop_err (2 + 2 * (N.to_nat n + 1)) rgce1; Ok (r, s)
   | 0x10 => do r <- drop 2 rgce1; arm_attrsum r s
   | 0x40 | 0x41 =>
       match fst s with
@@ -397,9 +405,10 @@ Definition xls_step (ptg : N) (rgce : list N) (s : pstate) : outcome (list N * p
   | 0x21 | 0x41 | 0x61 => arm_func false false rgce s
   | 0x22 | 0x42 | 0x62 => arm_func false true rgce s
   | 0x23 | 0x43 | 0x63 =>
-      (* let iname = read_u32(rgce) as usize - 1;  names.get(iname).map_or("#REF!", …) *)
+      (* let iname = (read_u32(rgce) as usize).checked_sub(1);
+         iname.and_then(|i| names.get(i)).map_or("#REF!", …) *)
       do i1 <- u32_at rgce 0;
-      if i1 =? 0 then Panic else
+      if i1 =? 0 then do r <- drop 4 rgce; Ok (r, (length buf :: st, buf ++ lit "#REF!")) else
       do r <- drop 4 rgce;
       Ok (r, (length buf :: st,
               buf ++ match nthN (xe_names xenv) (i1 - 1) with
@@ -423,6 +432,21 @@ Definition xls_step (ptg : N) (rgce : list N) (s : pstate) : outcome (list N * p
   | _ => Err E_UNRECOGNIZED
   end.
 
+(* size of the fixed operands the token reads: if rgce.len() < expected { return Err(Len) } *)
+Definition xls_expected (ptg : N) : nat :=
+  match ptg with
+  | 0x3a | 0x5a | 0x7a | 0x3c | 0x5c | 0x7c | 0x39 | 0x59 => 6%nat
+  | 0x3b | 0x5b | 0x7b | 0x3d | 0x5d | 0x7d => 10%nat
+  | 0x01 | 0x23 | 0x43 | 0x63 | 0x24 | 0x44 | 0x64 | 0x2A | 0x4A | 0x6A => 4%nat
+  | 0x17 | 0x19 | 0x1C | 0x1D => 1%nat
+  | 0x18 => 5%nat
+  | 0x1E | 0x21 | 0x41 | 0x61 => 2%nat
+  | 0x1F | 0x25 | 0x45 | 0x65 | 0x2B | 0x4B | 0x6B => 8%nat
+  | 0x20 | 0x40 | 0x60 => 7%nat
+  | 0x22 | 0x42 | 0x62 => 3%nat
+  | _ => 0%nat
+  end.
+
 (* while !rgce.is_empty() { … }: one unit of fuel per token *)
 Fixpoint xls_run (fuel : nat) (rgce : list N) (s : pstate) : outcome pstate :=
   match fuel with
@@ -430,15 +454,19 @@ Fixpoint xls_run (fuel : nat) (rgce : list N) (s : pstate) : outcome pstate :=
   | S f =>
       match rgce with
       | [] => Ok s
-      | ptg :: rest => do rs <- xls_step ptg rest s; xls_run f (fst rs) (snd rs)
+      | ptg :: rest =>
+          if (length rest <? xls_expected ptg)%nat then Err E_LEN
+          else do rs <- xls_step ptg rest s; xls_run f (fst rs) (snd rs)
       end
   end.
 
-(*  let cce = read_u16(rgce) as usize; rgce = &rgce[2..2 + cce]; …loop…;
+(*  if rgce.len() < 2 { Err }; let cce = read_u16(rgce) as usize; rgce = rgce.get(2..2 + cce)?; …loop…;
     if stack.len() == 1 { Ok(formula) } else { Err(InvalidFormula) } *)
 Definition xls_parse_formula (data : list N) : outcome (list N) :=
+  if (length data <? 2)%nat then Err E_LEN else             (* "formula cce" *)
   do cce <- u16_at data 0;
   do r2 <- drop 2 data;
+  if (length r2 <? N.to_nat cce)%nat then Err E_LEN else    (* rgce.get(2..2 + cce).ok_or(Len)? *)
   do rgce <- take (N.to_nat cce) r2;
   do s <- xls_run (S (length rgce)) rgce ([], []);
   match fst s with
@@ -453,9 +481,9 @@ Record xlsb_env := {
 }.
 Variable benv : xlsb_env.
 
-(* &sheets[ixti as usize] *)
+(* sheets.get(ixti as usize).map_or("#REF", |sh| sh) *)
 Definition sheet_name_xlsb (ixti : N) : outcome (list N) :=
-  of_option (nthN (be_sheets benv) ixti).
+  match nthN (be_sheets benv) ixti with Some sh => Ok sh | None => Ok (lit "#REF") end.
 
 (*  let cch = read_u16(&rgce[0..2]);
     UTF_16LE.decode_without_bom_handling(&rgce[2..2 + 2 * cch]).0.replace(QUOTE, QUOTE QUOTE);
@@ -464,6 +492,7 @@ Definition xlsb_ptgstr (rgce : list N) (s : pstate) : outcome (list N * pstate) 
   do cch <- u16_at rgce 0;
   let n := (2 * N.to_nat cch)%nat in
   do r2 <- drop 2 rgce;
+  if (length r2 <? n)%nat then Err E_LEN else               (* check_len("PtgStr", rgce.len(), 2 + 2 * cch)? *)
   do stream <- take n r2;
   do rest <- drop n r2;
   Ok (rest, (length (snd s) :: fst s,
@@ -472,6 +501,8 @@ Definition xlsb_ptgstr (rgce : list N) (s : pstate) : outcome (list N * pstate) 
 Definition xlsb_attr (rgce : list N) (s : pstate) : outcome (list N * pstate) :=
   do etpg <- byte_at rgce 0;
   do rgce1 <- drop 1 rgce;
+  (* check_len("PtgAttr", rgce.len(), if eptg == 0x04 { 10 } else { 2 })? *)
+  if (length rgce1 <? (if (etpg =? 0x04)%N then 10 else 2))%nat then Err E_LEN else
   match etpg with
   | 0x01 | 0x02 | 0x08 | 0x20 | 0x21 | 0x40 | 0x41 | 0x80 => do r <- drop 2 rgce1; Ok (r, s)
   | 0x04 => do r <- drop 10 rgce1; Ok (r, s)
@@ -524,8 +555,8 @@ Definition xlsb_step (sub : list N -> outcome (list N)) (ptg : N) (rgce : list N
       do eptg <- byte_at rgce 0;
       do rgce1 <- drop 1 rgce;
       match eptg with
-      | 0x19 => do r <- drop 12 rgce1; Ok (r, (length buf :: st, buf))
-      | 0x1D => do r <- drop 4 rgce1; Ok (r, (length buf :: st, buf))
+      | 0x19 => do r <- drop_err 12 rgce1; Ok (r, (length buf :: st, buf))
+      | 0x1D => do r <- drop_err 4 rgce1; Ok (r, (length buf :: st, buf))
       | _ => Err E_ETPG
       end
   | 0x19 => xlsb_attr rgce s
@@ -550,9 +581,10 @@ Definition xlsb_step (sub : list N -> outcome (list N)) (ptg : N) (rgce : list N
   | 0x21 | 0x41 | 0x61 => arm_func true false rgce s
   | 0x22 | 0x42 | 0x62 => arm_func true true rgce s
   | 0x23 | 0x43 | 0x63 =>
-      (* if let Some(name) = names.get(iname) { push_str } — nothing otherwise *)
+      (* if let Some(name) = iname.and_then(|i| names.get(i)) { push_str } — nothing otherwise
+         (iname = index.checked_sub(1)) *)
       do i1 <- u32_at rgce 0;
-      if i1 =? 0 then Panic else
+      if i1 =? 0 then do r <- drop 4 rgce; Ok (r, (length buf :: st, buf)) else
       do r <- drop 4 rgce;
       Ok (r, (length buf :: st,
               buf ++ match nthN (be_names benv) (i1 - 1) with
@@ -574,8 +606,9 @@ Definition xlsb_step (sub : list N -> outcome (list N)) (ptg : N) (rgce : list N
   | 0x29 | 0x49 | 0x69 =>                                            (* PtgMemFunc *)
       do cce <- u16_at rgce 0;
       do r2 <- drop 2 rgce;
+      if (length r2 <? N.to_nat cce)%nat then Err E_LEN else   (* check_len("PtgMemFunc", …, cce)? *)
       do inner <- take (N.to_nat cce) r2;
-      do f <- sub inner;
+      do f <- sub inner;                                        (* depth check, then the nested call *)
       do r <- drop (N.to_nat cce) r2;
       Ok (r, (length buf :: st, buf ++ f))
   | 0x39 | 0x59 | 0x79 => arm_push_text (lit "EXTERNAL_WB_NAME") 6 rgce s
@@ -588,9 +621,26 @@ Definition xlsb_finish (s : pstate) : outcome (list N) :=
   | _ => Err E_STACKLEN
   end.
 
-(* parse_formula and its loop, mutually: [xlsb_run f] may call the parser on a strictly shorter
-   slice with fuel f *)
-Fixpoint xlsb_run (fuel : nat) (rgce : list N) (s : pstate) : outcome pstate :=
+(* size of the fixed operands the token reads: check_len("ptg operands", rgce.len(), expected)? *)
+Definition xlsb_expected (ptg : N) : nat :=
+  match ptg with
+  | 0x3a | 0x5a | 0x7a | 0x3c | 0x5c | 0x7c => 8%nat
+  | 0x3b | 0x5b | 0x7b | 0x3d | 0x5d | 0x7d | 0x20 | 0x40 | 0x60 => 14%nat
+  | 0x01 | 0x23 | 0x43 | 0x63 => 4%nat
+  | 0x17 | 0x1E | 0x21 | 0x41 | 0x61 | 0x29 | 0x49 | 0x69 => 2%nat
+  | 0x18 | 0x19 | 0x1C | 0x1D => 1%nat
+  | 0x1F => 8%nat
+  | 0x22 | 0x42 | 0x62 => 3%nat
+  | 0x24 | 0x44 | 0x64 | 0x2A | 0x4A | 0x6A | 0x39 | 0x59 | 0x79 => 6%nat
+  | 0x25 | 0x45 | 0x65 | 0x2B | 0x4B | 0x6B => 12%nat
+  | _ => 0%nat
+  end.
+
+Definition MAX_FORMULA_DEPTH : nat := 64.
+
+(* parse_formula_nested and its loop, mutually: [xlsb_run f depth] may call the parser on a
+   strictly shorter slice with fuel f at depth + 1; beyond MAX_FORMULA_DEPTH the call is refused *)
+Fixpoint xlsb_run (fuel : nat) (depth : nat) (rgce : list N) (s : pstate) : outcome pstate :=
   match fuel with
   | O => OutOfFuel
   | S f =>
@@ -598,18 +648,20 @@ Fixpoint xlsb_run (fuel : nat) (rgce : list N) (s : pstate) : outcome pstate :=
       | [] => Ok s
       | ptg :: rest =>
           let sub := fun inner =>
+            if (MAX_FORMULA_DEPTH <=? depth)%nat then Err E_DEPTH else
             match inner with
             | [] => Ok []
-            | _ => do s' <- xlsb_run f inner ([], []); xlsb_finish s'
+            | _ => do s' <- xlsb_run f (S depth) inner ([], []); xlsb_finish s'
             end in
-          do rs <- xlsb_step sub ptg rest s; xlsb_run f (fst rs) (snd rs)
+          if (length rest <? xlsb_expected ptg)%nat then Err E_LEN
+          else do rs <- xlsb_step sub ptg rest s; xlsb_run f depth (fst rs) (snd rs)
       end
   end.
 
 Definition xlsb_parse_formula (rgce : list N) : outcome (list N) :=
   match rgce with
   | [] => Ok []                                   (* if rgce.is_empty() { return Ok(String::new()) } *)
-  | _ => do s <- xlsb_run (S (length rgce)) rgce ([], []); xlsb_finish s
+  | _ => do s <- xlsb_run (S (length rgce)) 0 rgce ([], []); xlsb_finish s
   end.
 
 End Decoders.
